@@ -101,6 +101,15 @@ static void shared_clr(void *mem, void *priv) { sync_alloc_events(); on_clear_co
 static void shared_clr_selfweak(void *mem, void *priv)
 {
     sync_alloc_events(); on_clear_common(mem, priv, NULL);
+    if (mem != NULL) {
+        /* the back-pointer pattern: while the block is being cleared no owner exists any more, so locking the weak
+         * reference it holds on itself must come back empty (an owner obtained here would tear the block down again) */
+        cstl_shared_ptr_t late;
+        cstl_shared_ptr_init(&late);
+        cstl_weak_ptr_lock(EW(mem), &late);
+        if (cstl_shared_ptr_get(&late) != NULL) clr_bad = 5;    /* left alone on purpose: resetting it would recurse */
+        VRT_COUNT("event.clear.reentrant-weak-lock-of-dying-block");
+    }
     cstl_weak_ptr_reset(EW(mem));
     VRT_COUNT("event.clear.shared"); VRT_COUNT("event.clear.reentrant-weak-reset");
 }
@@ -170,6 +179,7 @@ static void call_end(const char *entry)
         snprintf(key, sizeof(key), "memory.clear.twice-or-foreign.%s", entry);
         vrt_fail(key, "%s: clear callback ran for memory that was already cleared or is not a managed block", entry);
     }
+    VRT_CHECK(clr_bad != 5, "memory.weak.lock-inside-clear-yields-owner-of-dying-block", "%s: a weak pointer locked from inside the clear callback of the block it refers to (no owner left) yielded an owner", entry);
     VRT_CHECK(clr_bad != 4, "memory.graph.embedded-owner-not-empty-after-reset", "%s: a shared pointer embedded in a dying block still owns something after its reset returned", entry);
     VRT_CHECK(!ev_lost && nobs <= MAXEV, "harness.memory.event-buffer", "%s: allocator/callback events lost (%d observed)", entry, nobs);
     /* mallocs are checked by the caller (alloc ops); compare the destruction events */
